@@ -226,14 +226,15 @@ func parseTime(str string) (bool, dates.TimeOfDay) {
 			hour = 0
 		}
 
-		// is our time valid?
-		if hour > 24 {
+		// is our time valid? (24:00:00 has become 00:00:00 above, anything else that doesn't fit in a day would be
+		// carried into the date by time.Date)
+		if hour > 23 {
 			continue
 		}
-		if minute > 60 {
+		if minute > 59 {
 			continue
 		}
-		if second > 60 {
+		if second > 59 {
 			continue
 		}
 
